@@ -183,7 +183,11 @@ var fileBodies = []string{"'ab'", "between 1 and 3 digit", "'x' any", "'\\n'", "
 var fileWith = []string{"''", "'Y'", "'a longer replacement text'", "value value", "'<' value '>'", "matchNumber", "'→'", "'é' value", "l", "nosuch", "'' ''"}
 var filePieces = []string{"ab", "a", "b", "c", "x", "1", "22", " ", "\n", "A", "é", "zz", "abc", "xy", "a1", "\t"}
 
-func genContent(t *rapid.T) string {
+// a piece of text that each file body matches, so that most files have matches
+var fileBodyHit = map[string]string{"'ab'": "ab", "between 1 and 3 digit": "12", "'x' any": "xy", "'\\n'": "\n", "whitespace": " ", "(letter = l) digit": "a1",
+	"'é'": "é", "between 2 and 4 'a'": "aaa", "line start 'a'": "\na", "upper": "A", "in 'a', 'b' 'c'": "ac", "at least 1 digit fewest": "7"}
+
+func genContent(t *rapid.T, must string) string {
 	size := 0
 	switch rapid.IntRange(0, 9).Draw(t, "sizeclass") {
 	case 0:
@@ -200,6 +204,9 @@ func genContent(t *rapid.T) string {
 	var b strings.Builder
 	// a short random period repeated keeps generation cheap and matches frequent
 	period := rapid.SliceOfN(rapid.SampledFrom(filePieces), 1, 12).Draw(t, "period")
+	if must != "" && rapid.IntRange(0, 4).Draw(t, "plant") != 0 {
+		period = append(period, must)
+	}
 	unit := strings.Join(period, "")
 	for b.Len() < size {
 		b.WriteString(unit)
@@ -234,7 +241,7 @@ func TestC06(t *testing.T) {
 		} else {
 			src = "replace " + amount + " " + body + " with " + rapid.SampledFrom(fileWith).Draw(t, "with")
 		}
-		c := FileCase{Src: src, Content: genContent(t), Mode: rapid.SampledFrom([]string{"NOTHING", "NEW", "NEW", "OVERWRITE", "OVERWRITE"}).Draw(t, "mode")}
+		c := FileCase{Src: src, Content: genContent(t, fileBodyHit[body]), Mode: rapid.SampledFrom([]string{"NOTHING", "NEW", "NEW", "OVERWRITE", "OVERWRITE"}).Draw(t, "mode")}
 		switch rapid.IntRange(0, 3).Draw(t, "stale") {
 		case 1:
 			c.HasStale, c.Stale = true, "old"
